@@ -246,9 +246,11 @@ class TriangleSet(primitive.Primitive):
         tris = self._vertex[self._vertex_index]
         n = numpy.cross(tris[::, 1] - tris[::, 0], tris[::, 2] - tris[::, 0])
         normalize_v3(n)
-        norms[self._vertex_index[:, 0]] += n
-        norms[self._vertex_index[:, 1]] += n
-        norms[self._vertex_index[:, 2]] += n
+        # a vertex may occur in several triangles at the same corner position:
+        # `norms[index] += n` is buffered and would keep only one contribution per vertex
+        numpy.add.at(norms, self._vertex_index[:, 0], n)
+        numpy.add.at(norms, self._vertex_index[:, 1], n)
+        numpy.add.at(norms, self._vertex_index[:, 2], n)
         normalize_v3(norms)
 
         self._normal = norms
@@ -408,9 +410,11 @@ class BoundTriangleSet(primitive.BoundPrimitive):
         tris = self._vertex[self._vertex_index]
         n = numpy.cross(tris[::, 1] - tris[::, 0], tris[::, 2] - tris[::, 0])
         normalize_v3(n)
-        norms[self._vertex_index[:, 0]] += n
-        norms[self._vertex_index[:, 1]] += n
-        norms[self._vertex_index[:, 2]] += n
+        # a vertex may occur in several triangles at the same corner position:
+        # `norms[index] += n` is buffered and would keep only one contribution per vertex
+        numpy.add.at(norms, self._vertex_index[:, 0], n)
+        numpy.add.at(norms, self._vertex_index[:, 1], n)
+        numpy.add.at(norms, self._vertex_index[:, 2], n)
         normalize_v3(norms)
 
         self._normal = norms
